@@ -187,21 +187,6 @@ variable {M R V E : Type} [Inhabited R] [DecidableEq R] [Inhabited V] [PyExc E]
 
 namespace Prog
 
-/-- what is left of the program after one more input -/
-def step : Prog M R V E → Inp R E → Prog M R V E
-  | .yield _ k, .send r => k r
-  | .yield _ _, .throw e => .raise e
-  | p, _ => p
-
-theorem after_cons (p : Prog M R V E) (i : Inp R E) (h : List (Inp R E)) :
-    p.after (i :: h) = (p.step i).after h := by
-  cases p <;> cases i <;> simp [after, step]
-
-theorem after_foldl (h : List (Inp R E)) : ∀ p : Prog M R V E, p.after h = (h.foldl step p).after [] := by
-  induction h with
-  | nil => intro p; rfl
-  | cons i h ih => intro p; rw [after_cons, ih]; rfl
-
 /-- the drive of a generator running the program -/
 def drive (c : Bool) : Prog M R V E → List (Inp R E) → Drv M R V E
   | .ret v, ins => Drv.done (.ret v) ins
